@@ -31,7 +31,7 @@ def coq_table(spec, hash_defaults_irrelevant=True):
         if n["kind"] == "m":
             k = "SMemento None" if n["explicit"] is None else "SMemento (Some %d)" % i
         elif n["kind"] == "p":
-            k = "SPlain true"
+            k = "SPlain false" if n.get("outside") else "SPlain true"
         elif n["kind"] == "v":
             k = "SVar None" if n["vkind"] == "unsupported" else "SVar (Some %d)" % i
         else:
@@ -65,18 +65,38 @@ def parse_key(spec, key):
     return (K, par, ids[t])
 
 
+def cross_package_spec():
+    """a root that uses a memento function of another package and, directly, a plain function of that package"""
+    def fn(name, kind, module, const, refs=(), **kw):
+        d = {"name": name, "kind": kind, "module": module, "const": const, "default": None, "kwdefault": None, "setconst": None, "tupconst": None,
+             "sset": None, "pair": None, "nested": None, "explicit": None, "hidden": None, "refs": [list(r) for r in refs]}
+        d.update(kw)
+        return d
+    return {"pkg": "vpk", "nodes": [{"name": "G0", "kind": "v", "module": "c", "vkind": "int", "value": 4},
+                                    fn("h0", "p", "c", 5, [("G0", "bare")]),
+                                    fn("hx", "p", "c", 6, [("G0", "bare")], outside=True),
+                                    fn("hy", "p", "c", 8, [], outside=True),
+                                    fn("m1", "m", "c", 20, [("h0", "bare")]),
+                                    fn("m3", "m", "c", 21, [("m1", "bare")]),
+                                    fn("h1", "p", "a", 3, [("hy", "attr"), ("m3", "attr")]),
+                                    fn("m0", "m", "a", 30, [("m1", "attr"), ("hx", "attr")]),
+                                    fn("m2", "m", "b", 40, [("h1", "attr"), ("hx", "attr"), ("m0", "attr")])]}
+
+
 def run(tier, seed):
     rep = C.Report("C03", tier, seed)
     gate = C.proof_gate("C03")
     rng = random.Random(seed)
     n_prog = 10 if tier == "quick" else 80
     n_cfg = 3 if tier == "quick" else 5
+    if not gate["ok"]:          # search mode
+        n_prog, n_cfg = n_prog * 3, 6
     stats = {"programs": n_prog, "processes": 0, "hashseeds": set(), "with_string_set_constant": 0, "functions_compared": 0, "second_process_calls": 0, "rules_compared": 0}
     terms, metas = [], []
     with C.Scratch("c03") as scratch:
         jobs = []
-        for pi in range(n_prog):
-            spec = vprog.gen_spec(rng, n_m=rng.randint(2, 5), n_p=rng.randint(1, 3), n_v=rng.randint(1, 3), p_hidden=0.08)
+        for pi in range(n_prog + 1):
+            spec = cross_package_spec() if pi == n_prog else vprog.gen_spec(rng, n_m=rng.randint(2, 5), n_p=rng.randint(1, 3), n_v=rng.randint(1, 3), p_hidden=0.08, pkg2=rng.random() < 0.5, outside_helpers=True)
             if any(n.get("sset") for n in spec["nodes"]):
                 stats["with_string_set_constant"] += 1
             ms = vprog.mnames(spec)
